@@ -78,6 +78,9 @@ func init() {
 				return nil, nil
 			}
 			st.addPC(c)
+			if !st.Forked {
+				ex.st.NoteAssumption(c)
+			}
 			return nil, nil
 		},
 		"vAssert": func(ex *Exec, st *State, fr *Frame, args []Value, in ssa.Instruction) (Value, *forkReq) {
